@@ -35,6 +35,7 @@ pub fn profile(prop: &str, thorough: bool) -> Option<Profile> {
         max_encs: 8,
         random_hints: false,
         edited_initial_structure: false,
+        id_churn: false,
     };
     let deeper = |mut p: Profile| -> Profile {
         // thorough tier: longer histories, one more dimension for the static table
@@ -73,6 +74,7 @@ pub fn profile(prop: &str, thorough: bool) -> Option<Profile> {
             },
             shadow_refresh: true,
             invalid_pct: 15,
+            id_churn: true,
             ..base
         },
         "C04" => Profile {
